@@ -1,5 +1,6 @@
 import SstModel.Lemmas.Faulty
 import SstModel.Lemmas.FaultyScan
+import SstModel.Lemmas.MultiDamage
 import SstModel.Props.ReaderWF
 /-
   C07 (table level) — An alteration of stored bytes confined to ONE data block never turns into a wrong
@@ -383,6 +384,191 @@ theorem C07_filter_damage_detected (fb : Bytes) (hfv : FilterView p t (some fb))
 
 end
 
+/-! ### several damaged data blocks
+
+  `DamagedSet p t ds img'` (Lemmas/MultiDamage.lean): as `Damaged`, for a LIST `ds` of damaged data blocks —
+  same length and footer, index / metaindex / filter buffers and every data block outside `ds` unchanged,
+  every block of `ds` no longer verifies. `FT.intactBlocks t ds` = the blocks of `t` outside `ds`, in table
+  order. `CoherentButSet`: nothing of a damaged block is cached (true of the empty cache, kept by every
+  operation). -/
+
+/-- one damaged block is the special case `ds = [d0]` -/
+theorem C07_damagedSet_singleton (p : FilterPolicy) (t : TableImg) (d0 : DBlock) (img' : Bytes) :
+    DamagedSet p t [d0] img' ↔ Damaged p t d0 img' :=
+  ⟨FT.damaged_of_damagedSet, FT.damagedSet_of_damaged⟩
+
+/-- no damaged block: the image itself -/
+theorem C07_damagedSet_nil (p : FilterPolicy) (t : TableImg) : DamagedSet p t [] t.img :=
+  FT.damagedSet_nil p t
+
+/-- one more damaged block (generalises `C07_damaged_of_window`, iterate it for a list of disjoint windows,
+    one per damaged block): replacing ≤ 4 consecutive bytes inside the physical block of a data block
+    `d ∉ ds` (contents + type byte, or checksum field) of an image in which the blocks `ds` are already
+    damaged, all other regions the reader uses lying outside the window -/
+theorem C07_damagedSet_add_window (cmp : Cmp) (p : FilterPolicy) (t : TableImg) (hwf : t.WF cmp)
+    (ds : List DBlock) (pre w w' post : Bytes) (hdm : DamagedSet p t ds (pre ++ w ++ post))
+    (d : DBlock) (hd : d ∈ t.blocks) (hnew : d ∉ ds)
+    (hlen : w.length = w'.length) (h4 : w.length ≤ 4) (hne : w ≠ w')
+    (hin : FT.WindowIn d.handle pre.length w.length)
+    (hfoot : pre.length + w.length ≤ t.img.length - 48)
+    (hindex : FT.Outside pre.length (pre.length + w.length) t.indexHandle)
+    (hmeta : FT.Outside pre.length (pre.length + w.length) t.metaHandle)
+    (hfilter : ∀ v fh n, (Table.filterName p, v) ∈ t.metaix.kvs → BlockHandle.tryDecode v = some (fh, n) →
+      FT.Outside pre.length (pre.length + w.length) fh)
+    (hdata : ∀ d' ∈ t.blocks, d' ≠ d → FT.Outside pre.length (pre.length + w.length) d'.handle) :
+    DamagedSet p t (d :: ds) (pre ++ w' ++ post) :=
+  FT.damagedSet_add_window cmp p t hwf ds pre w w' post hdm d hd hnew hlen h4 hne hin hfoot hindex hmeta
+    hfilter hdata
+
+section
+variable (cmp : Cmp) (hc : cmp.Lawful) (p : FilterPolicy) (t : TableImg) (hwf : t.WF cmp)
+  (fv : Option Bytes) (ds : List DBlock) (img' : Bytes) (hdm : DamagedSet p t ds img')
+include hc hwf hdm
+
+/-- C07 (several damaged blocks, open is unaffected): `Table::new` succeeds with a handle `Opened` on the
+    intact image -/
+theorem C07_multi_open_unaffected (hfv : FilterView p t fv) (w : World) (file : Nat)
+    (hcw : CleanWorld w file img') :
+    ∃ w1 tb', Table.new ⟨cmp, p⟩ file img'.length w = (w1, .ok tb')
+      ∧ Opened tb' t cmp p fv ∧ tb'.file = file
+      ∧ tb'.cacheId = (w.cache.nextId + 1) % 2 ^ 64
+      ∧ CleanWorld w1 file img' ∧ w1.files = w.files
+      ∧ w1.cache.entries = w.cache.entries ∧ w1.cache.cap = w.cache.cap
+      ∧ w1.cache.nextId = (w.cache.nextId + 1) % 2 ^ 64
+      ∧ w1.events = w.events :=
+  FT.open_intact cmp hc p t hwf fv img' hdm.toMetaIntact hfv w file hcw
+
+/-- … the very handle that opening the intact file returns -/
+theorem C07_multi_open_same_handle (hfv : FilterView p t fv) (w w0 : World) (file : Nat)
+    (hcw : CleanWorld w file img') (hcw0 : CleanWorld w0 file t.img) (hcache : w0.cache = w.cache) :
+    ∃ tb, (Table.new ⟨cmp, p⟩ file img'.length w).2 = .ok tb
+      ∧ (Table.new ⟨cmp, p⟩ file t.img.length w0).2 = .ok tb := by
+  obtain ⟨w1, tb', hnew', hop', hf', hid', _⟩ :=
+    FT.open_intact cmp hc p t hwf fv img' hdm.toMetaIntact hfv w file hcw
+  obtain ⟨w2, tb, hnew, hop, hf, hid, _⟩ := open_ok cmp hc p t hwf fv hfv w0 file hcw0
+  have : tb' = tb := FT.opened_eq hop' hop (hf'.trans hf.symm) (by rw [hid', hid, hcache])
+  subst this
+  exact ⟨tb', by rw [hnew'], by rw [hnew]⟩
+
+variable (tb : Table) (hop : Opened tb t cmp p fv)
+include hop
+
+/-- C07 (several damaged blocks, block reads): a damaged block is reported as `Corruption` and never
+    cached; every other block is read exactly -/
+theorem C07_multi_blocks (w : World) (hcw : CleanWorld w tb.file img')
+    (hcoh : CoherentButSet w tb.cacheId t ds) (d : DBlock) (hd : d ∈ t.blocks) :
+    ∃ w', CleanWorld w' tb.file img' ∧ CoherentButSet w' tb.cacheId t ds
+      ∧ (d ∈ ds → tb.readBlock d.handle w = (w', .err .corruption)
+                  ∧ w'.cache = (w.cache.get (tb.cacheId, d.handle.offset % 2 ^ 64)).1)
+      ∧ (d ∉ ds → tb.readBlock d.handle w = (w', .ok d.blk.contents)) := by
+  by_cases hin : d ∈ ds
+  · obtain ⟨w', hb, h1, h2, h3⟩ := FT.readBlock_mdmg_bad cmp hc p t hwf fv ds img' hdm tb hop w hcw hcoh d hin
+    exact ⟨w', h1, h2, fun _ => ⟨hb, h3⟩, fun h => absurd hin h⟩
+  · obtain ⟨w', hb, h1, h2⟩ := FT.readBlock_mdmg_other cmp hc p t hwf fv ds img' hdm tb hop w hcw hcoh d hd hin
+    exact ⟨w', h1, h2, fun h => absurd h hin, fun _ => hb⟩
+
+/-- C07 (several damaged blocks, scans): from a before-first iterator the forward scan yields exactly the
+    entries of the blocks outside `ds` (`FT.intactBlocks t ds`: `d ∈ intactBlocks ↔ d ∈ t.blocks ∧ d ∉ ds`,
+    a sublist of `t.blocks`), in table order, every entry of each block that still verifies, then `none` -/
+theorem C07_multi_scan (w : World) (hcw : CleanWorld w tb.file img')
+    (hcoh : CoherentButSet w tb.cacheId t ds) (it : TableIter) (hs : SimT t tb it none) :
+    ∃ w' it', it.run (List.replicate (((FT.intactBlocks t ds).flatMap (·.blk.kvs)).length + 1) IterOp.next) w
+          = (w', .ok (it', ((FT.intactBlocks t ds).flatMap (·.blk.kvs)).map (fun e => IterOut.entry (some e))
+                            ++ [IterOut.entry none]))
+      ∧ (FT.intactBlocks t ds).Sublist t.blocks
+      ∧ (∀ d, d ∈ FT.intactBlocks t ds ↔ d ∈ t.blocks ∧ d ∉ ds)
+      ∧ CleanWorld w' tb.file img' ∧ CoherentButSet w' tb.cacheId t ds ∧ SimT t tb it' none := by
+  obtain ⟨w', it', hrun, h1, h2, h3⟩ := FT.scan_mdmg cmp hc p t hwf fv ds img' hdm tb hop w hcw hcoh it hs
+  exact ⟨w', it', hrun, FT.intactBlocks_sublist t ds, fun _ => FT.mem_intactBlocks, h1, h2, h3⟩
+
+/-- C07 (several damaged blocks, iterator calls): every call on an iterator that simulates a position
+    succeeds and leaves an iterator that simulates a position: only stored entries are ever shown -/
+theorem C07_multi_call_keeps_sim (it : TableIter) (pos : Option (Nat × Nat)) (hs : SimT t tb it pos)
+    (op : IterOp) (w : World) (hcw : CleanWorld w tb.file img') (hcoh : CoherentButSet w tb.cacheId t ds) :
+    ∃ w' it' out pos', it.call op w = (w', .ok (it', out)) ∧ SimT t tb it' pos'
+      ∧ CleanWorld w' tb.file img' ∧ CoherentButSet w' tb.cacheId t ds := by
+  obtain ⟨w', it', out, pos', hrun, hsT, hinv⟩ :=
+    FT.call_gen cmp hc p t hwf fv tb hop (FT.MDmgInv t ds img' tb)
+      (FT.loadOK_mdmg cmp hc p t hwf fv ds img' hdm tb hop) it pos hs op w ⟨hcw, hcoh⟩
+  exact ⟨w', it', out, pos', hrun, hsT, hinv.1, hinv.2⟩
+
+/-- C07 (several damaged blocks, `seek`): `seek k` lands on a stored entry not below `k` or is invalid;
+    the entries between the lower bound of `k` and the landing entry are exactly those of the blocks whose
+    read failed during the call (all of them damaged blocks); nothing failed ⇒ exactly the lower bound -/
+theorem C07_multi_seek (it : TableIter) (pos : Option (Nat × Nat)) (hs : SimT t tb it pos)
+    (w : World) (hcw : CleanWorld w tb.file img') (hcoh : CoherentButSet w tb.cacheId t ds) (k : Bytes) :
+    ∃ failed w' it' pos', it.seek k w = (w', .ok it') ∧ SimT t tb it' pos'
+      ∧ FT.SeekOutcome cmp tb t k w failed w' pos'
+      ∧ CleanWorld w' tb.file img' ∧ CoherentButSet w' tb.cacheId t ds
+      ∧ (∀ e, Spec.entryAt t.entries (t.flatPos pos') = some e → e ∈ t.entries ∧ cmp.cmp e.1 k ≠ .lt)
+      ∧ (∀ j, t.flatPos pos' = some j → ∃ j0, Spec.lowerBound cmp t.entries k = some j0
+            ∧ j = j0 + (failed.flatMap (·.blk.kvs)).length
+            ∧ (t.entries.drop j0).take ((failed.flatMap (·.blk.kvs)).length) = failed.flatMap (·.blk.kvs))
+      ∧ (failed = [] → t.flatPos pos' = Spec.lowerBound cmp t.entries k) := by
+  obtain ⟨ipos, hi⟩ := TI.simT_index hs
+  obtain ⟨failed, w', it', pos', hrun, hsT, hinv, hout⟩ :=
+    FT.seek_gen cmp hc p t hwf fv tb hop (FT.MDmgInv t ds img' tb)
+      (FT.loadOK_mdmg cmp hc p t hwf fv ds img' hdm tb hop) it hs.table ipos hi w ⟨hcw, hcoh⟩ k
+  refine ⟨failed, w', it', pos', hrun, hsT, hout, hinv.1, hinv.2, ?_,
+    FT.seekOutcome_skipped cmp hc p t hwf fv tb hop hout, ?_⟩
+  · intro e he
+    refine ⟨?_, FT.seekOutcome_not_below cmp hc p t hwf fv tb hop hout e he⟩
+    cases hfp : t.flatPos pos' with
+    | none => rw [hfp] at he; cases he
+    | some j => rw [hfp] at he; exact List.mem_of_getElem? he
+  · intro hnil
+    subst hnil
+    exact FT.seekOutcome_exact cmp hc p t hwf fv tb hop hout
+
+variable (hsound : ∀ fb, fv = some fb → FilterSound p t fb)
+  (hfwf : ∀ fb, fv = some fb → FilterBlockReader.isWellFormed fb = true)
+include hsound hfwf
+
+/-- C07 (several damaged blocks, lookups): a key the index routes to a damaged block and the filter lets pass
+    gets `Corruption`; every other key gets exactly the answer of the intact table -/
+theorem C07_multi_get_right_or_error (w : World) (hcw : CleanWorld w tb.file img')
+    (hcoh : CoherentButSet w tb.cacheId t ds) (k : Bytes) :
+    ∃ w', CleanWorld w' tb.file img' ∧ CoherentButSet w' tb.cacheId t ds
+      ∧ ((∃ d ∈ ds, Routed cmp t k d ∧ FT.FilterPasses tb p d k) → tb.get k w = (w', .err .corruption))
+      ∧ (¬ (∃ d ∈ ds, Routed cmp t k d ∧ FT.FilterPasses tb p d k) →
+            tb.get k w = (w', .ok (Spec.lookup cmp t.entries k))) :=
+  FT.get_mdmg cmp hc p t hwf fv ds img' hdm tb hop hsound hfwf w hcw hcoh k
+
+/-- C07 (several damaged blocks, never a wrong answer): every lookup returns the answer of the intact table
+    or `Corruption` -/
+theorem C07_multi_get_never_wrong (w : World) (hcw : CleanWorld w tb.file img')
+    (hcoh : CoherentButSet w tb.cacheId t ds) (k : Bytes) :
+    ∃ w', CleanWorld w' tb.file img' ∧ CoherentButSet w' tb.cacheId t ds
+      ∧ (tb.get k w = (w', .ok (Spec.lookup cmp t.entries k)) ∨ tb.get k w = (w', .err .corruption)) := by
+  obtain ⟨w', h1, h2, h3, h4⟩ := FT.get_mdmg cmp hc p t hwf fv ds img' hdm tb hop hsound hfwf w hcw hcoh k
+  refine ⟨w', h1, h2, ?_⟩
+  by_cases h : ∃ d ∈ ds, Routed cmp t k d ∧ FT.FilterPasses tb p d k
+  · exact .inr (h3 h)
+  · exact .inl (h4 h)
+
+/-- C07 (several damaged blocks, stored keys): a key stored in a damaged block gets `Corruption`; a key
+    stored in any other block is found with its value -/
+theorem C07_multi_stored_keys (w : World) (hcw : CleanWorld w tb.file img')
+    (hcoh : CoherentButSet w tb.cacheId t ds) (d : DBlock) (hd : d ∈ t.blocks) (k : Bytes) (hk : k ∈ d.keys) :
+    ∃ w', (d ∈ ds → tb.get k w = (w', .err .corruption))
+      ∧ (d ∉ ds → tb.get k w = (w', .ok (Spec.lookup cmp t.entries k))) := by
+  obtain ⟨w', _, _, h3, h4⟩ := FT.get_mdmg cmp hc p t hwf fv ds img' hdm tb hop hsound hfwf w hcw hcoh k
+  have hr := FT.routed_of_key cmp hc t hwf d hd k hk
+  refine ⟨w', ?_, ?_⟩
+  · intro hin
+    exact h3 ⟨d, hin, hr, FT.passes_of_key hop hsound d hd k hk⟩
+  · intro hnin
+    apply h4
+    intro ⟨d', hin', ⟨bi, hb1, hb2⟩, _⟩
+    obtain ⟨bi', hb1', hb2'⟩ := hr
+    rw [hb1] at hb1'
+    cases hb1'
+    rw [hb2] at hb2'
+    cases hb2'
+    exact hnin hin'
+
+end
+
 end Sst
 
 #print axioms Sst.C07_block_altered
@@ -408,3 +594,15 @@ end Sst
 #print axioms Sst.C07_index_damage_detected
 #print axioms Sst.C07_metaindex_damage_detected
 #print axioms Sst.C07_filter_damage_detected
+#print axioms Sst.C07_damagedSet_singleton
+#print axioms Sst.C07_damagedSet_nil
+#print axioms Sst.C07_damagedSet_add_window
+#print axioms Sst.C07_multi_open_unaffected
+#print axioms Sst.C07_multi_open_same_handle
+#print axioms Sst.C07_multi_blocks
+#print axioms Sst.C07_multi_scan
+#print axioms Sst.C07_multi_call_keeps_sim
+#print axioms Sst.C07_multi_seek
+#print axioms Sst.C07_multi_get_right_or_error
+#print axioms Sst.C07_multi_get_never_wrong
+#print axioms Sst.C07_multi_stored_keys
